@@ -129,16 +129,34 @@ def run(report, tier, seed, driver, proofs_ok):
                              oracle="C14_strict_errors over the regenerated field tables")
 
     # filter + class preservation on whole models
-    for i in range(40 if thorough else 6):
+    for i in range(120 if thorough else 30):
         valid = gen.valid_resources(rng)
         names = rng.sample(list(valid), rng.randrange(3, 9))
         res = {f"R{j}": valid[n] for j, n in enumerate(names)}
         res["G0"] = {"Type": "Custom::Thing", "Properties": {"A": "b"}}
         res["G1"] = {"Type": "AWS::Lambda::Function", "Properties": {"Code": {"ZipFile": "x"}}}
-        m = CFModel(Resources=copy.deepcopy(res))
+        lax = i % 2 == 1
+        damaged_types = []
+        if lax:
+            # with strict mode off a damaged definition of a modelled type is a GenericResource carrying that Type,
+            # next to well-formed resources of the same Type
+            for j, n in enumerate(rng.sample(names, rng.randrange(1, 3))):
+                d = copy.deepcopy(valid[n])
+                d.setdefault("Properties", {})["NotAProperty"] = 1
+                res[f"D{j}"] = d
+                damaged_types.append(n)
+        GenericResource._strict = not lax
+        try:
+            m = CFModel(Resources=copy.deepcopy(res))
+        finally:
+            GenericResource._strict = True
         all_classes = list(classes.values()) + [GenericResource, Resource]
         asked_c = rng.sample(all_classes, rng.randrange(0, 3))
         asked_t = rng.sample(list(classes) + ["Custom::Thing", "Nope"], rng.randrange(0, 3))
+        if damaged_types and rng.random() < 0.7:
+            asked_c = [classes[damaged_types[0]]] + asked_c[:1]
+            if rng.random() < 0.5:
+                asked_t = []
         got = sorted(m.resources_filtered_by_type(asked_c + asked_t))
         parsed = [{"name": n, "classes": [b.__name__ for b in type(r).__mro__ if hasattr(b, "model_fields")], "type": r.Type} for n, r in m.Resources.items()]
         report.case({"filter": [c.__name__ for c in asked_c] + asked_t}, ("filter", i))
@@ -148,12 +166,15 @@ def run(report, tier, seed, driver, proofs_ok):
                 report.violation("correspondence+oracle", "resources_filtered_by_type-differs", op={"classes": [c.__name__ for c in asked_c], "types": asked_t, "resources": parsed}, impl=got, model=sorted(mo["names"]),
                                  oracle="Dispatch.filterByType (C14_filter)")
         before = {n: type(r).__name__ for n, r in m.Resources.items()}
+        GenericResource._strict = not lax  # the transformations re-validate: same mode as the parse
         try:
             m2 = m.resolve()
             m3 = m2.expand_actions()
         except Exception as e:
+            GenericResource._strict = True
             report.violation("oracle", "resolve-or-expand-raises-" + common.exc_class(e), op={"resources": res}, impl={"message": str(e)[:200]})
             continue
+        GenericResource._strict = True
         for label, mm in (("resolve", m2), ("expand_actions", m3)):
             after = {n: type(r).__name__ for n, r in mm.Resources.items()}
             if after != before:
